@@ -128,24 +128,26 @@ def prepareFixedDecimal (lt : LogT) (size : Nat) : Val → R Val
       let delta := exp + lt.scale
       let digits := if delta > 0 then digits ++ List.replicate delta.toNat 0 else digits
       let unscaled := digitsToNat digits
+      let sign := if unscaled = 0 then false else sign      -- negative zero is zero
       let bitsReq := Py.bitLength unscaled + 1
       let sizeInBits := size * 8
+      -- if unscaled_datum > (1 << (size_in_bits - 1)) - (0 if sign else 1): raise ValueError
+      if sizeInBits = 0 then throw .value                  -- 1 << -1 raises ValueError
+      if (unscaled : Int) > (2 : Int) ^ (sizeInBits - 1) - (if sign then 0 else 1) then throw .value
       -- offset_bits = size_in_bits - bits_req  (may be negative in Python)
       let offsetBits : Int := (sizeInBits : Int) - bitsReq
-      -- mask = (2**size_in_bits - 1) with the low bits_req bits toggled
-      let mask : Int := Py.xor ((2 : Int) ^ sizeInBits - 1) ((2 : Int) ^ bitsReq - 1)
+      -- mask = (2**size_in_bits - 1) with the low bits_req bits toggled (all operands are non-negative)
+      let mask : Nat := (2 ^ sizeInBits - 1) ^^^ (2 ^ bitsReq - 1)
       let bytesReq := if bitsReq < 8 then 1 else (if bitsReq % 8 != 0 then bitsReq / 8 + 1 else bitsReq / 8)
       if sign then
-        let u : Int := Py.or mask ((2 : Int) ^ bitsReq - unscaled)
+        -- unscaled_datum = (1 << bits_req) - unscaled_datum; unscaled_datum = mask | unscaled_datum
+        let u : Nat := mask ||| (2 ^ bitsReq - unscaled)
         -- for index in range(size-1, -1, -1): write((u >> 8*index) & 0xFF)
-        let out := (List.range size).reverse.map fun i =>
-          UInt8.ofNat (Py.and (Py.shr u (8 * i)) 0xFF).toNat
-        pure (.bytes out)
+        pure (.bytes (Py.toBytesBE size u))
       else
         let zeros := (offsetBits.fdiv 8).toNat     -- range(negative) is empty
-        let tail := (List.range bytesReq).reverse.map fun i =>
-          UInt8.ofNat ((unscaled >>> (8 * i)) % 256)
-        pure (.bytes (List.replicate zeros 0 ++ tail))
+        -- for index in range(bytes_req-1, -1, -1): write((unscaled >> 8*index) & 0xFF)
+        pure (.bytes (List.replicate zeros 0 ++ Py.toBytesBE bytesReq unscaled))
   | v => .ok v
 
 def hexDigit (n : Nat) : Char := if n < 10 then Char.ofNat (48 + n) else Char.ofNat (87 + n)
